@@ -510,7 +510,17 @@ def pipeline(ctx):
                     # the vignetting factor of the field (the launch points)
                     d = sym2.diff(r2, 'self.distribution.y')
                     want, var = base * (ONE - A('VY')), 'distribution.y'
-                if sym2.eq(d, want) and sym2.eq(sym2.diff(r2, 'opd'), ONE):
+                tx_ = A('self.optic.fields.max_field') * A('Hx') * A('pi') / \
+                    C(180)
+                basex = A('N_OBJECT') * sym2.sin(tx_) * A('EPD') / C(2)
+                if given:
+                    dxv, wantx = sym2.diff(r2, 'PX'), basex
+                else:
+                    dxv = sym2.diff(r2, 'self.distribution.x')
+                    wantx = basex * (ONE - A('VX'))
+                okx_ = sym2.eq(dxv * dxv, wantx * wantx)
+                if sym2.eq(d, want) and okx_ and \
+                        sym2.eq(sym2.diff(r2, 'opd'), ONE):
                     res.ok(f'angular fields: d(path)/d({var}) = '
                            f'n_object EPD/2 sin(Hy max_field)'
                            f'{"" if given else " (1 - vy)"}')
